@@ -83,6 +83,10 @@ def _load(name):
             doc = json.load(f)
         _CACHE[name] = (TimeOfUseTariff(name), oracles.TariffOracle(doc))
     tar, orc = _CACHE[name]
+    if _CACHE.get("n:" + name, 0) % 5 == 0:
+        from vlib.monitors import poke
+        from acnportal.signals.tariffs.tou_tariff import TimeOfUseTariff as _T
+        poke(tar, _T(name), _T(FILES[0]))
     # every other request gets a newly constructed tariff object for the same file (the n-th object built in this
     # process must behave like the first), the others share the first one (state left by earlier lookups must not matter)
     _CACHE["n:" + name] = _CACHE.get("n:" + name, 0) + 1
